@@ -1,4 +1,5 @@
 """C01 — flatten() output rebuilds the same element tree through from_flat()."""
+import datetime
 import copy
 from collections import Counter
 
@@ -99,6 +100,9 @@ def settle_state(e, s, kinds, under=False):
     if t == "leaf":
         if under and e["leaf"] == "":
             return e
+        kind = kinds[s["k"]]
+        if kind.get("type") == "Boolean" and e["leaf"] == "" and kind.get("false", "") != "":
+            return {"leaf": kind["false"]}          # KF-C01-h, from the kind description
         probe = fl.kind_class(kinds[s["k"]])()
         try:
             probe.set(e["leaf"])
@@ -124,21 +128,42 @@ def settle_state(e, s, kinds, under=False):
     return e
 
 
-def leaf_finding(types):
-    if types and types <= {"Time", "Date", "DateTime"}:
-        return "KF-C01-b"
-    if types and types <= {"Float"}:
-        return "KF-C01-c"
-    if types and types <= {"Joined"}:
-        return "KF-C01-f"
-    if types and types <= {"Boolean"}:
-        return "KF-C01-h"
-    # several leaf-level findings at work in one case: the prediction covers all of them at once
-    known = {"Time": "KF-C01-b", "Date": "KF-C01-b", "DateTime": "KF-C01-b", "Float": "KF-C01-c",
-             "Joined": "KF-C01-f", "Boolean": "KF-C01-h"}
-    if types and all(t in known for t in types):
-        return sorted(known[t] for t in types)[0]
+def _leaf_class(u):
+    """Which recorded leaf-level finding explains ONE unsettled leaf — decided from the leaf's kind
+    description and state, not from what the library under test makes of it."""
+    t, text, retext, _key, _v, _pv, info = u
+    kind = info["kind"]
+    if t in ("Time", "Date", "DateTime"):
+        # KF-C01-b: a native with more precision than the text form; the text itself is settled
+        return "KF-C01-b" if info["extra"] and retext == text else None
+    if t == "Float":
+        # KF-C01-c: rejected input whose text Python reads as an infinity
+        try:
+            inf = info["value_none"] and float(text) in (float("inf"), float("-inf"))
+        except ValueError:
+            inf = False
+        return "KF-C01-c" if inf else None
+    if t == "Boolean":
+        # KF-C01-h: custom false token; the never-set / None text '' reads back as False
+        return "KF-C01-h" if text == "" and kind.get("false", "") != "" and retext == kind.get("false") else None
+    if t == "Joined":
+        # KF-C01-i (= KF-C18-c): a member text contains a separator match, so the joined text splits differently
+        sepj = kind.get("sep", ",")
+        ms = info["members"] or []
+        return "KF-C01-i" if any(sepj in m for m in ms) and sepj.join(ms) == text else None
     return None
+
+
+def leaf_finding(entries):
+    """The finding that explains a failure whose prediction already matched: every unsettled leaf must be
+    explained by a recorded finding (several may be at work at once)."""
+    entries = list(entries)
+    if not entries:
+        return None
+    ids = [_leaf_class(u) for u in entries]
+    if any(i is None for i in ids):
+        return None
+    return sorted(ids)[0]
 
 
 def over_ceiling(e, s):
@@ -153,16 +178,44 @@ def over_ceiling(e, s):
 
 
 def order_normal(e, s):
-    """Members of sparse dicts in schema order (for the class predicate of KF-C01-d)."""
+    """Members of sparse dicts in the order from_flat rebuilds them (the prediction of KF-C01-d)."""
     t = s["t"]
     if t in ("dict", "compound"):
         fields = {f["name"]: f for f in s["fields"]}
         order = {f["name"]: i for i, f in enumerate(s["fields"])}
         ms = [[k, order_normal(v, fields[k])] for k, v in e["dict"]]
-        ms.sort(key=lambda p: order[p[0]])
+        # a rebuilt SparseDict(minimum_fields='required') holds its required members first (created by
+        # _reset), then the ones the pairs materialise, both in schema order
+        req_first = s.get("mode") == "sparseReq"
+        ms.sort(key=lambda p: (1 if req_first and fields[p[0]].get("opt") else 0, order[p[0]]))
         return {"dict": ms}
     if t == "list":
         return {"list": [order_normal(m, s["member"]) for m in e["list"]]}
+    return e
+
+
+def _pairless(e):
+    """The state emits no pair at all (so no flat input can tell it from an absent slot)."""
+    if "dict" in e:
+        return all(_pairless(v) for _, v in e["dict"])
+    if "list" in e:
+        return all(_pairless(m) for m in e["list"])
+    if "array" in e:
+        return not e["array"]
+    return False
+
+
+def drop_pairless_tail(e, s):
+    """Trailing list slots that emit no pair are invisible to flatten(): normalise them away."""
+    t = s["t"]
+    if t in ("dict", "compound") and "dict" in e:
+        fields = {f["name"]: f for f in s["fields"]}
+        return {"dict": [[k, drop_pairless_tail(v, fields[k])] for k, v in e["dict"]]}
+    if t == "list" and "list" in e:
+        ms = [drop_pairless_tail(m, s["member"]) for m in e["list"]]
+        while ms and _pairless(ms[-1]):
+            ms.pop()
+        return {"list": ms}
     return e
 
 
@@ -191,8 +244,13 @@ def unsettled_leaves(el, schema, kinds, sep=None):
             except Exception:
                 continue
             if probe.u != e.u or (sc["t"] == "leaf" and kind["type"] in fl.EXACT_TYPES and e.u != "" and probe.value != e.value):
+                v = e.value
+                extra = (isinstance(v, datetime.datetime) if kind["type"] == "Date"
+                         else bool(getattr(v, "microsecond", 0)) if kind["type"] in ("Time", "DateTime") else False)
+                members = [m.u for m in list.__iter__(e)] if sc["t"] == "joined" else None
                 out.append((kind["type"], e.u, probe.u, e.flattened_name(sep) if sep is not None else None,
-                            repr(e.value), repr(probe.value)))
+                            repr(e.value), repr(probe.value), {"extra": extra, "kind": kind, "members": members,
+                                                               "value_none": v is None}))
     return out
 
 
@@ -293,7 +351,21 @@ class C01(Property):
                      "kinds": kinds, "sep": "|", "value": [{"s": "a"}, {"s": ""}, {"s": "c"}]}
         ceiling = {"schema": {"t": "list", "name": "l", "opt": False, "prune": False, "max": 2, "member": S("s")},
                    "kinds": kinds, "sep": "_", "value": [{"s": "a"}, {"s": "b"}, {"s": "c"}]}      # KF-C01-g
-        return [overlap, time_us, float_big, sparse_order, regex_sep, ceiling]
+        # KF-C01-e: a blank member of a SparseDict below a pruning List does not come back
+        sparse_blank = {"schema": {"t": "list", "name": "l", "opt": False, "prune": True, "max": 1024, "member":
+                        {"t": "dict", "name": None, "opt": False, "mode": "sparse", "fields": [S("a"), S("b")]}},
+                        "kinds": kinds, "sep": "_", "value": [{"d": [["a", {"s": "1"}], ["b", {"s": ""}]]}]}
+        # KF-C01-h: a never-set Boolean with custom tokens flattens to '' and comes back as 'no'
+        kinds_h = [fl.LEAF_KINDS[0], fl.LEAF_KINDS[13]]
+        bool_custom = {"schema": {"t": "dict", "name": None, "opt": False, "mode": "dense", "fields": [S("a"), S("f", 1)]},
+                       "kinds": kinds_h, "sep": "_", "value": {"d": [["a", {"s": "1"}]]}}
+        # KF-C01-i: a JoinedString member text containing the separator splits differently on the way back
+        jk = {"type": "Joined", "sep": ",", "prune": False, "member": fl.LEAF_KINDS[0]}
+        kinds_i = [fl.LEAF_KINDS[0], jk]
+        joined_sep = {"schema": {"t": "joined", "name": "j", "opt": False, "k": 1,
+                                 "member": {"t": "leaf", "name": None, "opt": False, "k": 0}},
+                      "kinds": kinds_i, "sep": "_", "value": [{"s": "a ,b"}, {"s": "c"}]}
+        return [overlap, time_us, float_big, sparse_order, regex_sep, ceiling, sparse_blank, bool_custom, joined_sep]
 
     def generate(self, rng, n, tier):
         for _ in range(n):
@@ -400,7 +472,10 @@ class C01(Property):
         this very case (not merely when the case contains the finding's trigger)."""
         schema, kinds, sep = case["schema"], case["kinds"], case["sep"]
         clause = failure.get("clause")
-        if not fl.sep_safe(sep, fl.schema_names(schema)):
+        other = self._classify_rest(case, failure)
+        if other is not None:
+            return other
+        if not fl.sep_safe(sep, fl.schema_names(schema), nd_rule=False):
             # KF-C01-a predicts: the failure is caused by the separator overlapping names — the same case
             # under a separator that occurs nowhere in its names / indexes / itself does not fail that way
             safe = next(c for c in ["\x1f", "\x1e", "\x1d", "\u2063"] if all(c not in n for n in fl.schema_names(schema)))
@@ -409,8 +484,12 @@ class C01(Property):
                 still = [f for f in self.oracle(alt) if f.get("clause") == clause]
             except Exception:
                 still = [1]
-            still = [f for f in still if f == 1 or self.classify(alt, f) is None]
             return None if still else "KF-C01-a"
+        return None
+
+    def _classify_rest(self, case, failure):
+        schema, kinds, sep = case["schema"], case["kinds"], case["sep"]
+        clause = failure.get("clause")
         try:
             r, _ = self._trip(case)
         except Exception:
@@ -436,7 +515,7 @@ class C01(Property):
             predicted = Counter({kv: n for kv, n in predicted.items() if kv not in empt})
             if predicted != Counter(map(tuple, obs)):
                 return None
-            return leaf_finding({u[0] for u in uns})
+            return leaf_finding(uns)
         if clause == "leaf-values-kept-pruned":
             if not uns:
                 return None
@@ -446,14 +525,14 @@ class C01(Property):
             predicted = Counter({tv: n for tv, n in predicted.items() if tv[0] != ""})
             if predicted != Counter(map(tuple, obs)):
                 return None
-            return leaf_finding({u[0] for u in uns})
+            return leaf_finding(uns)
         if clause in ("identical-flatten", "only-documented-pruning"):
             return self._classify_trip(el, s0, el1, f1, schema, kinds, sep, has_sparse)
         if clause == "second-trip-stable":
             # the second trip starts from the rebuilt element; when the first trip was bent by a ceiling or an
             # unsettled leaf its result need not be stable, and the second trip — behaving exactly as
             # documented from there — inherits that finding
-            inherited = "KF-C01-g" if over_ceiling(s0, schema) else leaf_finding({u[0] for u in uns})
+            inherited = "KF-C01-g" if over_ceiling(s0, schema) else leaf_finding(uns)
             return self._classify_trip(el1, fl.extract(el1, schema), el2, f2, schema, kinds, sep, has_sparse, inherited)
         return None
 
@@ -470,16 +549,19 @@ class C01(Property):
                 return None
             for a1 in (True, False):
                 if obs == [list(p) for p in flatten_state(trip(a1), schema, sep)]:
-                    return "KF-C01-g" if over else (leaf_finding({u[0] for u in uns}) if uns else inherited)
+                    return "KF-C01-g" if over else (leaf_finding(uns) if uns else inherited)
             return None
         end_state = fl.extract(end_el, schema)
+        # KF-C01-d predicts: the rebuilt tree is the predicted one with SparseDict members in SCHEMA order
         for a1 in (True, False):
-            if Counter(map(tuple, flatten_state(trip(a1), schema, sep))) == Counter(map(tuple, obs)):
+            if obs == [list(p) for p in flatten_state(order_normal(trip(a1), schema), schema, sep)]:
                 return "KF-C01-d"
+        # KF-C01-e predicts: besides that order, only BLANK sparse members differ — compared on states, so
+        # that list lengths and every other member count
         for a1 in (True, False):
-            n0 = flatten_state(strip_blank_sparse(trip(a1), schema), schema, sep)
-            n1 = flatten_state(strip_blank_sparse(end_state, schema), schema, sep)
-            if Counter(map(tuple, n0)) == Counter(map(tuple, n1)):
+            n0 = strip_blank_sparse(drop_pairless_tail(order_normal(trip(a1), schema), schema), schema)
+            n1 = strip_blank_sparse(drop_pairless_tail(order_normal(end_state, schema), schema), schema)
+            if n0 == n1:
                 return "KF-C01-e"
         return None
 
